@@ -49,6 +49,12 @@ CLAIMS.update({
                     "once and in order per processed mutation, Finals iff applied, reported times equal machine times and chain, canceled ones report no change, "
                     "QueueEnd once, MutationQueued once per processed mutation.",
             "note": MK_NOTE + " Single goroutine, one tracer.", "technique": TECH_FORK, "design_ref": "DESIGN.md section 4 (C14)"},
+    "C20": {"text": "Totality and algebra of the exported helpers of pkg/machine executed path by path on symbolic arguments: S.Delete/Add/Add1/Sub/Shared/Equal/"
+                    "EqualOrder/Has/Index round trip, SAdd, Time and TimeIndex algebra for every index, queue queries for every Position on queues of 0..2 mutations, "
+                    "ParseStates, Event.Export/Clone without a machine, copying getters, every When* with nil and live contexts. Any reachable panic is a violation; "
+                    "five genuine defects are known findings re-confirmed natively each run.",
+            "note": "Assumes documented preconditions only. pkg/helpers and pkg/integrations kernels are outside this revision's claim. Trusted: go/ssa, symgo, z3.",
+            "technique": TECH_FORK, "design_ref": "DESIGN.md section 4 (C20)"},
 })
 
 NA = {
